@@ -983,6 +983,39 @@ def one_shot_reuse(fdef, generator_functions=()):
                 return f'the generator {ln}(..)'
         return None
     out = []
+    # a local that is re-bound on one arm to a single-pass iterator (`xs = f(..)` ... `if c: xs = (x for x in xs if ..)`) and then consumed inside a later loop that
+    # contains none of its bindings: on that arm every iteration after the first sees nothing
+    for name, bs in binds.items():
+        if len(bs) < 2 or name in params or not all(isinstance(b, ast.Assign) and len(b.targets) == 1 and isinstance(b.targets[0], ast.Name) for b in bs):
+            continue
+        for b in bs:
+            kind = one_shot(b.value)
+            if kind is None:
+                continue
+
+            def loops_of(n):
+                ls = []
+                while n in parent:
+                    par = parent[n]
+                    if isinstance(par, (ast.For, ast.While)) and not (isinstance(par, ast.For) and par.iter is n):
+                        ls.append(par)
+                    n = par
+                return ls
+            if loops_of(b):
+                continue
+            uses = [n for n in walk_no_nested(fdef) if isinstance(n, ast.Name) and n.id == name and isinstance(n.ctx, ast.Load) and n.lineno > b.lineno and not any(n is y for y in ast.walk(b))]
+            later_binds = [x for x in bs if x is not b and x.lineno > b.lineno]
+            for u in uses:
+                p_ = parent.get(u)
+                consuming = (isinstance(p_, ast.For) and p_.iter is u) or (isinstance(p_, ast.comprehension) and p_.iter is u) or isinstance(p_, ast.YieldFrom)
+                if not consuming:
+                    continue
+                encl = loops_of(p_) if isinstance(p_, ast.For) else loops_of(u)
+                encl = [l for l in encl if l is not p_]
+                if encl and not any(any(x is lb for x in ast.walk(l)) for l in encl for lb in bs) and not any(lb.lineno < u.lineno for lb in later_binds):
+                    out.append((name, b, p_, encl[-1], f'`{name}` is re-bound to {kind} at line {int(b.lineno)} and consumed inside the loop at line {int(encl[-1].lineno)}, which does not '
+                                f're-create it: from the second iteration on it is exhausted and yields nothing'))
+                    break
     for name, bs in binds.items():
         if len(bs) != 1 or name in params or not isinstance(bs[0], ast.Assign) or len(bs[0].targets) != 1 or not isinstance(bs[0].targets[0], ast.Name):
             continue
